@@ -31,7 +31,7 @@ func init() {
 }
 
 type Op struct {
-	Kind  string `json:"k"` // send | secret | mode
+	Kind  string `json:"k"` // send | secret | mode | failwrite (Sizes[0] = payload, Sizes[1] = bytes of the frame that reach the wire before the write fails)
 	Dir   int    `json:"d"`
 	Sizes []int  `json:"s,omitempty"`
 	On    bool   `json:"on,omitempty"`
@@ -83,6 +83,8 @@ type dirModel struct {
 	knowIV    bool
 	refused   bool
 	exhausted bool
+	lost      bool // the frame carrying the IV broke: the direction is not followed any further
+	broken    bool // a write failed in mid-frame: the peer can no longer follow this direction
 }
 
 type runStats struct {
@@ -164,10 +166,42 @@ func runSession(key []byte, s Session, salt uint32, st *runStats) string {
 			if !a || !b {
 				return "SetCryptoMode refused on a keyed stream"
 			}
+		case "failwrite":
+			// a write that fails after part of the frame is on the wire, the stream staying usable: whatever
+			// the sender does next in this direction, it may not seal under the nonce this frame consumed
+			d := op.Dir
+			S, sc := streams[d], conns[d]
+			m := &md[d]
+			if !modeOn || m.refused || m.lost || m.exhausted || m.ref.Ctr >= 0xfffffffe {
+				continue
+			}
+			pl := kit.Pattern(op.Sizes[0], salt+seq)
+			seq++
+			w0 := len(sc.WriteLog)
+			sc.PartialWrite, sc.PartialWriteArmed = op.Sizes[1], true
+			err := S.SendMessage(kit.Bg, pl)
+			sc.PartialWriteArmed = false
+			if err == nil {
+				return fmt.Sprintf("op %d: SendMessage reported success although the connection accepted only part of the frame", oi)
+			}
+			if !m.knowIV {
+				// the frame that carried the IV is the one that broke: nothing later in this direction can be predicted
+				m.lost = true
+				continue
+			}
+			want := m.ref.Seal(1, pl, digs[d][0], digs[d][1]) // consumes this frame's counter value in the model
+			st.protFrames[d]++
+			if w := sc.WriteLog[w0:]; len(w) != 1 || !bytes.HasPrefix(want, w[0]) {
+				return fmt.Sprintf("op %d: the bytes that reached the wire before the write failed are not a prefix of the frame the reference codec predicts (counter %d)", oi, m.ref.Ctr-1)
+			}
+			m.broken = true
 		case "send", "secret":
 			d := op.Dir
 			S, R, sc := streams[d], streams[1-d], conns[d]
 			m := &md[d]
+			if m.lost {
+				continue
+			}
 			sizes := op.Sizes
 			protected := modeOn || op.Kind == "secret"
 			w0 := len(sc.WriteLog)
@@ -253,6 +287,9 @@ func runSession(key []byte, s Session, salt uint32, st *runStats) string {
 			if sendErr != nil {
 				return fmt.Sprintf("op %d: send failed after emitting everything: %v", oi, sendErr)
 			}
+			if m.broken {
+				continue // the peer lost this direction at the broken frame; only the sender's bytes are judged
+			}
 			// the real receiver must accept what the real sender produced
 			var got []byte
 			var err error
@@ -332,6 +369,9 @@ func genSession(t *rapid.T, allowBlob bool) Session {
 		switch {
 		case k == 0:
 			s.Ops = append(s.Ops, Op{Kind: "mode", On: rapid.Bool().Draw(t, "on")})
+		case k == 2 && rapid.IntRange(0, 2).Draw(t, "fw") == 0:
+			sz := rapid.SampledFrom([]int{1, 16, 17, 300, 4096}).Draw(t, "fwsize")
+			s.Ops = append(s.Ops, Op{Kind: "failwrite", Dir: rapid.IntRange(0, 1).Draw(t, "dir"), Sizes: []int{sz, rapid.IntRange(0, sz+20).Draw(t, "passed")}})
 		case k == 1:
 			s.Ops = append(s.Ops, Op{Kind: "secret", Dir: rapid.IntRange(0, 1).Draw(t, "dir"), Sizes: []int{rapid.IntRange(0, 60).Draw(t, "seclen")}})
 		default:
@@ -384,6 +424,37 @@ func TestC12Histories(t *testing.T) {
 			t.Fatalf("C12 violated: %s\ncase: %s", v, js)
 		}
 	})
+}
+
+// TestC12FailedWrites: a write that fails after k bytes of a protected frame are on the wire, for every
+// position of that frame in a short history; the sends that follow must not reuse its nonce.
+func TestC12FailedWrites(t *testing.T) {
+	bad := 0
+	n := 0
+	for _, size := range []int{1, 16, 300} {
+		for _, passed := range []int{0, 4, 5, 21, 22, size + 20, size + 21, size + 40} {
+			for before := 0; before < 3; before++ {
+				for _, dir := range []int{0, 1} {
+					s := Session{PreAB: [][]int{{3}}}
+					for i := 0; i < before; i++ {
+						s.Ops = append(s.Ops, Op{Kind: "send", Dir: dir, Sizes: []int{9}}, Op{Kind: "send", Dir: 1 - dir, Sizes: []int{2}})
+					}
+					s.Ops = append(s.Ops, Op{Kind: "failwrite", Dir: dir, Sizes: []int{size, passed}},
+						Op{Kind: "send", Dir: dir, Sizes: []int{size}}, Op{Kind: "secret", Dir: dir, Sizes: []int{5}}, Op{Kind: "send", Dir: 1 - dir, Sizes: []int{7}}, Op{Kind: "send", Dir: dir, Sizes: []int{0, 40}})
+					c := Case{Salt: uint32(1000 + n), Sessions: []Session{s}}
+					n++
+					v, st := runCase(c)
+					record(c, st)
+					if v != "" && bad < 4 {
+						bad++
+						kit.Violation("C12", v, c)
+						t.Errorf("C12 violated: %s", v)
+					}
+				}
+			}
+		}
+	}
+	ev.Exhaustive("a write failing after k bytes (8 values of k) of a protected frame of 3 sizes, as 1st/2nd/3rd protected frame of either direction, followed by 4 further sends")
 }
 
 // TestC12CounterEdge: deterministic sweep of the counter limit and of
